@@ -97,9 +97,25 @@ func c12Gen(t *rapid.T) c12Case {
 		n := rapid.IntRange(0, 14).Draw(t, "nchars")
 		s := ""
 		for i := 0; i < n; i++ {
-			s += rapid.SampledFrom([]string{"a", "b", "c", "-", "é", "正", "💩", "\xff", "\xc3", "1", "\n", "\r", " "}).Draw(t, "ch")
+			s += rapid.SampledFrom([]string{"a", "b", "c", "-", "é", "正", "💩", "\xff", "\xc3", "1", "\n", "\r", " ", "\u0301", "\u0e34", "\uFFFD"}).Draw(t, "ch")
 		}
 		c.Pw = []byte(s)
+	}
+	if rapid.IntRange(0, 49).Draw(t, "long") == 0 {
+		// a long string and an index made of maximal lengths
+		chunk := rapid.SampledFrom([]string{"ab", "é-", "x", "正確馬"}).Draw(t, "chunk")
+		n := rapid.IntRange(256, 900).Draw(t, "long_n")
+		c.Pw = []byte(strings.Repeat(chunk, n/len([]rune(chunk))+1))
+		c.Entropy = 2
+		kind := byte(rapid.IntRange(1, 3).Draw(t, "long_kind"))
+		c.Index = []byte{kind}
+		for i := rapid.IntRange(1, 3).Draw(t, "long_entries"); i > 0; i-- {
+			c.Index = append(c.Index, 255)
+			if kind == 3 {
+				c.Index = append(c.Index, byte(i%2))
+			}
+		}
+		return c
 	}
 	nch := oracle.NChars(string(c.Pw))
 	c.Entropy = rapid.Float32().Draw(t, "entropy")
